@@ -201,7 +201,9 @@ META = dict(
                 "per-operator reference semantics up to two known findings, for all trees / environments / numeric carriers; wrong-"
                 "kind operands are errors naming the operand; every error of the evaluation is an admissible one (about SOME offending "
                 "operand) and a tree with a value has no admissible error; every NUMBER token of the lexer model carries a text that "
-                "starts with a digit and ParseFloat accepts; for exact rational arithmetic `//` is the floor of the quotient and `%` "
+                "starts with a digit and ParseFloat accepts, and (ASCII) is exactly the longest prefix of the form (digit | . | e+digit)* — "
+                "which is the formal statement of the known finding number-exponent-split (`1e5` -> NUMBER 1, then `e5`), proved for "
+                "lexWord in every state and for the first token of a complete lexer run; for exact rational arithmetic `//` is the floor of the quotient and `%` "
                 "the truncated remainder. Tested, not proved: the model against the code (measured: ~65k quick / ~750k thorough evaluations, see evaluations), "
                 "IEEE behaviour of the float carrier, whitespace / keyword case / number splitting (Lean lexer model on the model "
                 "side, intended tokens, layout variants against their plain writing on the real code alone)."),
